@@ -239,6 +239,17 @@ Proof.
   right. exists n. split; reflexivity.
 Qed.
 
+(** The arms of [step] for the single call past the request: the object stays a call or is gone. *)
+Ltac call_arms HD :=
+  unfold do_call_into_receive;
+  repeat match goal with
+  | |- context [match into_receive ?c with _ => _ end] => destruct (into_receive c)
+  | |- context [match c_reader ?c with _ => _ end] => destruct (c_reader c) as [[| | |]|]
+  | |- context [match call_try_response ?c ?b with _ => _ end] => destruct (call_try_response c b) as [[? ?]|?|?]
+  | |- context [match call_read ?c ?b ?cap with _ => _ end] => destruct (call_read c b cap) as [[[? ?] ?]|?|?]
+  end; cbn [fst];
+  first [exact HD | apply DInv_not_await; cbn; discriminate].
+
 Theorem dinv_step s o : SInv s -> DInv s -> in_quantifier2 s o -> DInv (fst (step s o)).
 Proof.
   intros HS HD HQ. pose proof HS as [Hobj _]. unfold in_quantifier2 in HQ.
@@ -265,15 +276,15 @@ Proof.
   - destruct (s_obj s) as [|t f|hd c] eqn:Ho; [| destruct t | destruct hd]; cbn [fst]; try exact HD.
     apply DInv_upd; [discriminate|exact HD].
   - (* OProceed *)
-    destruct (s_obj s) as [|t f|hd c] eqn:Ho; [exact HD| |exact HD].
+    destruct (s_obj s) as [|t f|hd c] eqn:Ho; [exact HD| |destruct hd; call_arms HD].
     apply do_proceed_dinv; assumption.
   - destruct (s_obj s) as [|t f|hd c] eqn:Ho; [exact HD| |exact HD].
     apply do_premature_dinv; assumption.
   - (* OWriteHead *)
     destruct (s_obj s) as [|t f|hd c] eqn:Ho; [| destruct t | destruct hd]; cbn [fst]; try exact HD.
     + apply DInv_upd; [discriminate|exact HD].
-    + destruct (call_write_nobody c cap) as [[c' out]|e|p]; cbn [fst]; try exact HD.
-      apply DInv_not_await. cbn. discriminate.
+    + destruct (call_write_nobody c cap) as [[c' out]|e|p]; cbn [fst]; try exact HD;
+        (apply DInv_not_await; cbn; discriminate).
   - (* OWriteBody / OWriteSum / OWriteFrom *)
     assert (Hg : forall i tr sm, DInv (fst (do_write_body s i cap tr sm))).
     { intros i tr sm. unfold do_write_body.
@@ -283,7 +294,8 @@ Proof.
         apply DInv_track_sent. discriminate.
       - destruct hd; try exact HD.
         destruct (call_write_body c i cap) as [[[c' u] o]|e|p]; cbn [fst]; try exact HD.
-        apply DInv_not_await. intros f' E. destruct tr; cbn in E; discriminate. }
+        + apply DInv_not_await. intros f' E. destruct tr; cbn in E; discriminate.
+        + apply DInv_not_await. cbn. discriminate. }
     destruct (s_obj s); apply Hg.
   - assert (Hg : forall i tr sm, DInv (fst (do_write_body s i cap tr sm))).
     { intros i tr sm. unfold do_write_body.
@@ -293,7 +305,8 @@ Proof.
         apply DInv_track_sent. discriminate.
       - destruct hd; try exact HD.
         destruct (call_write_body c i cap) as [[[c' u] o]|e|p]; cbn [fst]; try exact HD.
-        apply DInv_not_await. intros f' E. destruct tr; cbn in E; discriminate. }
+        + apply DInv_not_await. intros f' E. destruct tr; cbn in E; discriminate.
+        + apply DInv_not_await. cbn. discriminate. }
     destruct (s_obj s); apply Hg.
   - assert (Hg : forall i tr sm, DInv (fst (do_write_body s i cap tr sm))).
     { intros i tr sm. unfold do_write_body.
@@ -303,7 +316,8 @@ Proof.
         apply DInv_track_sent. discriminate.
       - destruct hd; try exact HD.
         destruct (call_write_body c i cap) as [[[c' u] o]|e|p]; cbn [fst]; try exact HD.
-        apply DInv_not_await. intros f' E. destruct tr; cbn in E; discriminate. }
+        + apply DInv_not_await. intros f' E. destruct tr; cbn in E; discriminate.
+        + apply DInv_not_await. cbn. discriminate. }
     destruct (s_obj s); apply Hg.
   - (* OSetBody *)
     assert (Hg : DInv (fst ({| s_obj := s_obj s; s_next := s_next s; s_stream := s_stream s;
@@ -339,20 +353,23 @@ Proof.
     unfold do_try_response. destruct (recv_try_response f (window s)) as [[[f' u] g]|e|p]; cbn [fst]; try exact HD.
     apply (DInv_track s TRecvResponse f' true). discriminate.
   - destruct (s_obj s) as [|t f|hd c] eqn:Ho; [| destruct t | destruct hd]; cbn [fst]; try exact HD.
-    unfold do_try_response. destruct (recv_try_response f w) as [[[f' u] g]|e|p]; cbn [fst]; try exact HD.
-    apply DInv_with_flow. discriminate.
+    + unfold do_try_response. destruct (recv_try_response f w) as [[[f' u] g]|e|p]; cbn [fst]; try exact HD.
+      apply DInv_with_flow. discriminate.
+    + call_arms HD.
   - (* ORead *)
     destruct (s_obj s) as [|t f|hd c] eqn:Ho; [| destruct t | destruct hd]; cbn [fst]; try exact HD.
     unfold do_read. destruct (recv_body_read f (window s) cap) as [[[f' i] o]|e|p]; cbn [fst]; try exact HD.
     + apply (DInv_track s TRecvBody f' true). discriminate.
     + apply DInv_with_flow. discriminate.
   - destruct (s_obj s) as [|t f|hd c] eqn:Ho; [| destruct t | destruct hd]; cbn [fst]; try exact HD.
-    unfold do_read. destruct (recv_body_read f w cap) as [[[f' i] o]|e|p]; cbn [fst]; try exact HD.
-    + apply DInv_with_flow. discriminate.
-    + apply DInv_with_flow. discriminate.
+    + unfold do_read. destruct (recv_body_read f w cap) as [[[f' i] o]|e|p]; cbn [fst]; try exact HD.
+      * apply DInv_with_flow. discriminate.
+      * apply DInv_with_flow. discriminate.
+    + call_arms HD.
   - (* OStop *)
     destruct (s_obj s) as [|t f|hd c] eqn:Ho; [| destruct t | destruct hd]; cbn [fst]; try exact HD.
-    apply DInv_upd; [discriminate|exact HD].
+    + apply DInv_upd; [discriminate|exact HD].
+    + call_arms HD.
   - (* OAsNewFlow *)
     destruct (s_obj s) as [|t f|hd c] eqn:Ho; [| destruct t | destruct hd]; cbn [fst]; try exact HD.
     destruct (as_new_flow f p) as [[f' nxt]|e|pn]; cbn [fst]; try exact HD.
